@@ -725,6 +725,38 @@ func (x *executor) enterLoopHeader(m *machine, fr *frame, li *loopInfo) bool {
 	base := c.d.fresh("allocbase", "Int")
 	m.st.assume(app("<=", "Bool", base, lr.allocMark))
 	m.st.low = base
+	// memory allocated by earlier iterations (references in [base, mark)) holds arbitrary values:
+	// every heap the loop allocates in is replaced by a fresh heap that agrees with the old one outside that region
+	objT, arrT := x.allocTypesInLoop(fr, li)
+	region := func(r *T) *T { return mkAnd(app("<=", "Bool", base, r), app("<", "Bool", r, lr.allocMark)) }
+	for _, t := range objT {
+		old := c.heapOf(m.st, t)
+		nh := c.d.fresh("Hloop_"+heapKey(t), old.sort)
+		qcounter++
+		r := atom(fmt.Sprintf("r!%d", qcounter), "Int")
+		body := mkImp(mkNot(region(r)), mkEq(app("select", c.sortOf(t), nh, r), app("select", c.sortOf(t), old, r)))
+		m.st.assume(app(fmt.Sprintf("forall ((%s Int))", r.op), "Bool", &T{op: "!", args: []*T{body, atom(":pattern ((select "+nh.op+" "+r.op+"))", "Attr")}, sort: "Bool"}))
+		wf := c.valueWF(app("select", c.sortOf(t), nh, r), t)
+		if !isTrue(wf) {
+			m.st.assume(app(fmt.Sprintf("forall ((%s Int))", r.op), "Bool", &T{op: "!", args: []*T{wf, atom(":pattern ((select "+nh.op+" "+r.op+"))", "Attr")}, sort: "Bool"}))
+		}
+		m.st.heaps[heapKey(t)] = nh
+	}
+	for _, t := range arrT {
+		old := c.arrOf(m.st, t)
+		nh := c.d.fresh("Aloop_"+heapKey(t), old.sort)
+		qcounter++
+		r := atom(fmt.Sprintf("r!%d", qcounter), "Int")
+		is := arraySort(c.intSort(), c.sortOf(t))
+		body := mkImp(mkNot(region(r)), mkEq(app("select", is, nh, r), app("select", is, old, r)))
+		m.st.assume(app(fmt.Sprintf("forall ((%s Int))", r.op), "Bool", &T{op: "!", args: []*T{body, atom(":pattern ((select "+nh.op+" "+r.op+"))", "Attr")}, sort: "Bool"}))
+		i := atom(fmt.Sprintf("i!%d", qcounter), c.intSort())
+		wf := c.valueWF(app("select", c.sortOf(t), app("select", is, nh, r), i), t)
+		if !isTrue(wf) {
+			m.st.assume(app(fmt.Sprintf("forall ((%s Int) (%s %s))", r.op, i.op, i.sort), "Bool", wf))
+		}
+		m.st.arrs[heapKey(t)] = nh
+	}
 	ev = x.contractEval(m, fr, pos, "")
 	ev = x.loopEval(ev, lr)
 	for _, cl := range lc.invariants {
@@ -1021,4 +1053,68 @@ func (x *executor) runAts(m *machine, fr *frame, in ssa.Instruction) {
 		}
 		m.st.assume(g)
 	}
+}
+
+// allocTypesInLoop: pointee types of heap-allocated locals / new(T) and element types of make/append/
+// slice-of-array in the loop body (including functions inlined into it).
+func (x *executor) allocTypesInLoop(fr *frame, li *loopInfo) (obj []types.Type, arr []types.Type) {
+	seenO, seenA := map[string]bool{}, map[string]bool{}
+	addO := func(t types.Type) {
+		if k := heapKey(t); !seenO[k] {
+			seenO[k] = true
+			obj = append(obj, t)
+		}
+	}
+	addA := func(t types.Type) {
+		if k := heapKey(t); !seenA[k] {
+			seenA[k] = true
+			arr = append(arr, t)
+		}
+	}
+	var scan func(in ssa.Instruction, depth int)
+	scanFn := func(fn *ssa.Function, depth int) {
+		for _, b := range fn.Blocks {
+			for _, in := range b.Instrs {
+				scan(in, depth)
+			}
+		}
+	}
+	scan = func(in ssa.Instruction, depth int) {
+		switch in := in.(type) {
+		case *ssa.Alloc:
+			if in.Heap {
+				addO(in.Type().Underlying().(*types.Pointer).Elem())
+			}
+		case *ssa.MakeSlice:
+			addA(in.Type().Underlying().(*types.Slice).Elem())
+		case *ssa.Slice:
+			if pt, ok := in.X.Type().Underlying().(*types.Pointer); ok {
+				if at, ok := pt.Elem().Underlying().(*types.Array); ok {
+					addA(at.Elem())
+				}
+			}
+		case *ssa.Convert:
+			if sl, ok := in.Type().Underlying().(*types.Slice); ok && isString(in.X.Type()) {
+				addA(sl.Elem())
+			}
+		case ssa.CallInstruction:
+			com := in.Common()
+			if b, ok := com.Value.(*ssa.Builtin); ok && b.Name() == "append" {
+				addA(com.Args[0].Type().Underlying().(*types.Slice).Elem())
+			}
+			if depth < 4 {
+				if mc, ok := com.Value.(*ssa.MakeClosure); ok {
+					scanFn(mc.Fn.(*ssa.Function), depth+1)
+				} else if f, ok := com.Value.(*ssa.Function); ok && x.isInlined(f) {
+					scanFn(f, depth+1)
+				}
+			}
+		}
+	}
+	for b := range li.blocks {
+		for _, in := range b.Instrs {
+			scan(in, 0)
+		}
+	}
+	return
 }
